@@ -4,10 +4,17 @@
 // Event level (M-bft-abs): every PROPOSE_VOTE / PRECOMMIT_VOTE any key holder signs, every lock a replica
 // adopts from an ELECTION_VOTE's HighQc, every commit. The model answers `ok` when the entry satisfies the
 // guards of the proved model (or is Byzantine), `guard-violated:<which>` otherwise; the implementation side
-// of the line is `ok` because the real code did produce the entry.
+// of the line is `ok` because the real code did produce the entry (except for the view-order assumption, which
+// is evaluated on the implementation's own record: see voteAssumption).
 //
-// The oracle is independent of the model: two honest commits with different (blockHash, resultsHash), or an
-// honest replica signing two different payloads in one (view, phase).
+// Step level (M-bft-exec, honest replicas, replica side): `ph r <phase> <input>` per phase-handler call (the input is
+// what the real replica's proposal table / leader role hands the handler), `dl` per PROPOSE/PRECOMMIT/COMMIT message,
+// `ev` per HighQc-carrying ELECTION_VOTE, `reset` per NEW_COMMITTEE reset; the result is what the real code did and
+// the replica's canonical state (view, phase, lock header + block, block of the round).
+//
+// The oracles are independent of the model: two honest commits with different (blockHash, resultsHash); an
+// honest replica signing two different payloads in one (view, phase); an honest replica voting in a lower view
+// than before (the latter two are tolerated, and counted, only after a reset that did not raise the root height).
 package c01
 
 import (
@@ -63,6 +70,7 @@ type run struct {
 	branches        map[string]int
 	nAdopt, nRefuse int
 	failed          bool
+	cast            map[int][]castVote
 }
 
 func newRun(o sink, name string, cfg bftsim.Config) *run {
@@ -147,9 +155,55 @@ func (r *run) flush() {
 	}
 	sort.Slice(items, func(i, j int) bool { return items[i].seq < items[j].seq })
 	for _, it := range items {
-		r.o.Op(it.line, "ok")
+		r.o.Op(it.line, r.voteAssumption(it.line))
 	}
 	r.oracle()
+}
+
+// voteAssumption evaluates, on the implementation's own record, the assumption the model makes about honest replicas
+// (votes are cast in non-decreasing views, once per view and phase). It can only fail after a reset that did not raise the
+// root height (F11, counted as its own schedule class); anywhere else it is a failure of the implementation.
+func (r *run) voteAssumption(line string) string {
+	var kind, view string
+	var rep int
+	var rest string
+	if n, _ := fmt.Sscanf(line, "vote %s %d %s %s", &kind, &rep, &view, &rest); n < 3 || r.s.IsByz[rep] {
+		return "ok"
+	}
+	var root, round uint64
+	fmt.Sscanf(view, "%d.%d", &root, &round)
+	res := "ok"
+	for _, p := range r.cast[rep] {
+		if p.root > root || (p.root == root && p.round > round) {
+			res = "guard-violated:view-regress"
+			break
+		}
+	}
+	if res == "ok" {
+		for _, p := range r.cast[rep] {
+			if p.kind == kind && p.root == root && p.round == round {
+				res = "guard-violated:double-vote"
+			}
+		}
+	}
+	if r.cast == nil {
+		r.cast = map[int][]castVote{}
+	}
+	r.cast[rep] = append(r.cast[rep], castVote{kind, root, round})
+	if res != "ok" {
+		r.o.Count("assumption:" + res)
+		if r.s.SameRootResets == 0 && !r.failed {
+			r.failed = true
+			r.o.Fail("C01:honest-vote-order", fmt.Sprintf("case %s: honest replica %d: %s at %s without any same-root reset", r.name, rep, res, view),
+				map[string]any{"schedule": r.sched})
+		}
+	}
+	return res
+}
+
+type castVote struct {
+	kind        string
+	root, round uint64
 }
 
 // oracle: the property itself, evaluated on what the real replicas did.
@@ -307,6 +361,7 @@ var errNames = func() map[string]string {
 		"ErrNoSavedBlockOrResults": lib.ErrNoSavedBlockOrResults(), "ErrMismatchConsBlockHash": lib.ErrMismatchConsBlockHash(),
 		"ErrMismatchResultsHash": lib.ErrMismatchResultsHash(), "ErrNoMaj23": lib.ErrNoMaj23(),
 		"ErrWrongHighQCRootHeight": lib.ErrWrongHighQCRootHeight(), "ErrWrongHighQCHeight": lib.ErrWrongHighQCHeight(),
+		"ErrInvalidAggrSignature": lib.ErrInvalidAggrSignature(),
 	} {
 		m[fmt.Sprintf("%s/%d", e.Module(), e.Code())] = name
 	}
